@@ -26,7 +26,7 @@ ASSUMPTIONS = [
     "find_single_node_by_path follows the first child of each name (as documented), find_all_nodes_by_path all of them",
     "replace_child is driven with delete_old=False in the exhaustive part and with both settings in the random histories (the default deletes the old subtree from the registry, which is C14's subject; the ordered-tree invariants must hold regardless)",
 ]
-REQUIRED = ["deep_chain_nodes", "steps", "failing_edits", "edge_shifts_positional", "edge_shifts_samename", "query_evaluations", "states_expanded"]
+REQUIRED = ["vocabulary_probes", "wide_parent_steps", "deep_chain_nodes", "steps", "failing_edits", "edge_shifts_positional", "edge_shifts_samename", "query_evaluations", "states_expanded"]
 EXHAUSTIVE = {"quick": False, "thorough": False}
 
 INDEXES = (None, -1, 0, 1, 2, 9)
@@ -215,6 +215,7 @@ def check_queries(ctx, nodes, label, f, names, paths, wit, which=None):
 def step(ctx, nodes, label, f, op, names, paths, wit, query_nodes=None):
     """One monitored operation on real nodes and model.  Returns False when a violation makes further comparison pointless."""
     before = listed_view(nodes, label)
+    links_before = [n.parent for n in nodes]
     expect_fail, exp_result = False, None
     g = f.clone()
     try:
@@ -236,6 +237,11 @@ def step(ctx, nodes, label, f, op, names, paths, wit, query_nodes=None):
             return False
         if listed_view(nodes, label) != before:
             ctx.violation(f"failing-edit-changed-tree:{kind}", f"{op} raised {type(raised).__name__} but child lists / listed parent links changed", wit())
+            return False
+        moved = [i for i, (n, was) in enumerate(zip(nodes, links_before)) if n.parent is not was]
+        if moved:
+            ctx.violation(f"failing-edit-changed-tree:{kind}|parent-link", f"{op} raised {type(raised).__name__} but the parent link of node {moved[0]} "
+                                                                           f"was rewritten (its ancestry now answers differently)", wit())
             return False
         return True
     if raised is not None:
@@ -422,7 +428,7 @@ def random_history(ctx, n_nodes, n_ops, hist_no):
         if k < 0.45:
             roots = [c for c in range(n_nodes) if f.may_attach(p, c)]
             if roots:
-                idx = rng.choice([None, None, 0, -1, 1, rng.randint(-3, len(f.kids[p]) + 3)])
+                idx = rng.choice([None, None, 0, -1, 1, rng.randint(-3, len(f.kids[p]) + 3), rng.choice(["1", 2.0, ""])])
                 op = ("add", p, rng.choice(roots), idx)
         elif k < 0.6:
             c = rng.choice(f.kids[p]) if f.kids[p] and rng.random() < 0.85 else rng.randrange(n_nodes)
@@ -482,6 +488,63 @@ def deep_chain(ctx, depth):
     emlkit.discard(*nodes)
 
 
+def vocabulary_probe(ctx):
+    """The queries are about structure, not about what an element is called: every element name the library knows (and a few it does
+    not) once as an intermediate node between the start of a search and its targets."""
+    from vlib.emlkit import mrule
+    vocabulary = list(mrule.node_names()) + list(treegen_foreign())
+    for nm in vocabulary:
+        names = ["r", nm, "t", "t", nm, "t"]
+        nodes, label = fresh_nodes(names)
+        f = Forest(names)
+        history = []
+        for op in (("add", 0, 1, None), ("add", 1, 2, None), ("add", 0, 3, None), ("add", 1, 4, None), ("add", 4, 5, None)):
+            apply_real(nodes, op)
+            apply_model(f, op)
+            history.append(op)
+        ctx.evaluated()
+        ctx.count("vocabulary_probes")
+        check_queries(ctx, nodes, label, f, ["t", nm, "zz"], [(nm, "t"), (nm, nm, "t"), ("t",)],
+                      lambda: {"names": names, "history": [list(o) for o in history[:-1]], "op": list(history[-1])})
+        emlkit.discard(*nodes)
+
+
+def treegen_foreign():
+    from vlib import treegen
+    return [x for x in treegen.FOREIGN_NAMES if x]
+
+
+def wide_parent_probe(ctx, width):
+    """A parent with hundreds of children (an attribute list): shifts at and around both edges, positional and among same-named
+    siblings, against the model; then removal and insertion at two- and three-digit positions."""
+    names = ["p"] + ["a" if i % 7 else "b" for i in range(width)]
+    nodes, label = fresh_nodes(names)
+    f = Forest(names)
+    history = []
+
+    def wit():
+        return {"wide_parent": width, "history": [list(o) for o in history[:-1]], "op": list(history[-1])}
+
+    for i in range(1, width + 1):
+        op = ("add", 0, i, None)
+        apply_real(nodes, op)
+        apply_model(f, op)
+    qn, paths = ["a", "b", "zz"], [("a",), ("b",)]
+    ops = []
+    for c in (width, width - 1, 1, 2, 256, 257, 258, 259, 128, 129):
+        if 1 <= c <= width:
+            for right in (True, False):
+                for sib in (True, False):
+                    ops.append(("shift", 0, c, right, sib))
+    ops += [("remove", 0, 257 if width >= 257 else width), ("add", 0, 257 if width >= 257 else width, 100), ("remove", 0, 10), ("add", 0, 10, 256 if width >= 257 else 11)]
+    for op in ops:
+        history.append(op)
+        ctx.count("wide_parent_steps")
+        if not step(ctx, nodes, label, f, op, qn, paths, wit, [0, 1, width]):
+            break
+    emlkit.discard(*nodes)
+
+
 def run(ctx, params):
     if params.get("repo_tests"):
         from vlib import repotests
@@ -492,6 +555,9 @@ def run(ctx, params):
             bfs(ctx, params["bfs"]["names"], params["bfs"]["depth"])
     if params["random"]:
         deep_chain(ctx, 140 if ctx.tier == "quick" else 400)
+        ctx.case(vocabulary_probe, ctx, seconds=300.0)
+        for width in (300, 259, 64):
+            ctx.case(wide_parent_probe, ctx, width, seconds=300.0)
     for h in range(params["random"]):
         random_history(ctx, ctx.rng.randint(12, 40), ctx.rng.randint(200, max(201, params["maxops"])), h)
         ctx.count("random_histories")
@@ -506,6 +572,11 @@ def replay(ctx, witness):
     if "repo_test" in witness:
         from vlib import repotests
         repotests.run(ctx, PROPERTY)
+        ctx.distinct(1)
+        ctx.distinct(2)
+        return
+    if "wide_parent" in witness:
+        wide_parent_probe(ctx, witness["wide_parent"])
         ctx.distinct(1)
         ctx.distinct(2)
         return
